@@ -140,12 +140,12 @@ var (
 		"IDENT":   {"a", "start", "x_1", "gramma", "grammars", "grammar_", "g", "gr", "left", "z9_", "expr"},
 		"TOKEN":   {"ID", "NUM_1", "T_", "AB", "X9"},
 		"PREDEF":  {"$WS", "$ID", "$A_1", "$NUMBER", "$X9"},
-		"STRING":  {`"a"`, `"if"`, `"+"`, `"a\"b"`, `"\\"`, `"/*"`, `"//"`, `"x\ny"`, `"!#~"`, `"{{"`},
+		"STRING":  {`"a"`, `"if"`, `"+"`, `"a\"b"`, `"\\"`, `"/*"`, `"//"`, `"x\ny"`, `"!#~"`, `"{{"`, `"\""`, `"\"hi\""`, `"x\"\""`, `"\\\""`, `"\"\\"`, `"a\/"`},
 		"REGEX":   {`/a/`, `/[0-9]+/`, `/a\/b/`, `/\\/`, `/a\\/`, `/ x /`, `/a|b*/`, `/[^"]/`, `/\//`, `/a\/\/b/`, `/x*/`},
 		"comment": {"//", "// c", "//x/*y*/", "/**/", "/* c */", "/* a\n b */", "/* x **/", "/***/", "/*/*/", "/* * / */", "/*\t*/", "//\t\"q"},
 		"sep":     {" ", "\t", "\n", "\r\n", "  ", "\n\n", " \t "},
 		"near": {`"`, `"abc`, `"a b"`, `""`, `/`, `/abc`, `//`, `/*`, `/* x`, `/* x *`, `$`, `$x`, `$1`, `@`, `@lef`, `@lefty`, `@rightx`, `@non`, `#`, `%`, `&`, `'`, `~`, "`", `!`, `*`, `+`, `,`, `-`, `.`, `:`, `?`, `\`, `^`, `_`,
-			"é", "€", "😀", "\x7f", "\x01", "\f", "\v", `"é"`, `/é/`, "// é", "/* é */", "A", "A1", "1", "9a", "_a"},
+			"é", "€", "😀", "\x7f", "\x01", "\f", "\v", "\uFEFF", "\u00A0", "\u2028", "\u200B", `"é"`, `/é/`, "// é", "/* é */", "A", "A1", "1", "9a", "_a"},
 	}
 	genKinds = []string{"punct", "kw", "IDENT", "TOKEN", "PREDEF", "STRING", "REGEX", "comment"}
 )
@@ -248,6 +248,14 @@ func runC05(c *ctx) {
 			}
 		}
 		c.exhaustive("all_pairs_of_sample_tokens_x_separators", true)
+	}
+	// ---------------- (b1'') code points that are neither tokens nor separators as the VERY FIRST code point of the text
+	for i, lead := range []string{"\uFEFF", "\u00A0", "\u2028", "\u200B", "\x7f", "\x01", "\f", "\v", "é", "\uFFFE", "\uFEFF\uFEFF"} {
+		for j, rest := range []string{"", "grammar g;", " grammar g;\nstart = \"a\";\n", "\n\nstart"} {
+			if c.mine() {
+				check(fmt.Sprintf("lead%d.%d", i, j), lead+rest)
+			}
+		}
 	}
 	// ---------------- (b1') long texts: every alignment of tokens against the reader's buffer boundaries
 	{
